@@ -14,45 +14,52 @@ From Coq Require Import ZArith List Permutation.
 From PV Require Import Base.Tac PTG.PTGDefs PTG.Engine PTG.EngineProofs PTG.PTGProofs.
 Import ListNotations.
 
+(* Well-formedness is `wf_first_match`: the first input dependency of a data flow whose guard holds is THE
+   input (as the runtime scans them), so `<- (k > 0) ? X PROD(k)` followed by an unguarded `<- D(k)` is a valid
+   program.  `wf_program` (exactly one guard holds) is the special case: *)
+Theorem C01_wf_program_is_first_match : forall P, wf_program P = true -> wf_first_match P = true.
+Proof. exact wf_program_first_match. Qed.
+Print Assumptions C01_wf_program_is_first_match.
+
 (* for every well-formed program and EVERY schedule: no instance starts twice *)
-Theorem C01_no_task_begins_twice : forall P, wf_program P = true ->
+Theorem C01_no_task_begins_twice : forall P, wf_first_match P = true ->
   forall evs, NoDup (executed P evs).
-Proof. exact ptg_no_task_begins_twice. Qed.
+Proof. exact first_no_task_begins_twice. Qed.
 Print Assumptions C01_no_task_begins_twice.
 
 (* nothing outside the declared execution space ever runs *)
-Theorem C01_only_instances_run : forall P, wf_program P = true ->
+Theorem C01_only_instances_run : forall P, wf_first_match P = true ->
   forall evs t, In t (executed P evs) -> In t (instances P).
-Proof. exact ptg_only_instances_run. Qed.
+Proof. exact first_only_instances_run. Qed.
 Print Assumptions C01_only_instances_run.
 
 (* every Begin happens after the End of every predecessor (the log is most-recent-first:
    l1 is what happened before this Begin) *)
-Theorem C01_begin_after_predecessors_ended : forall P, wf_program P = true ->
+Theorem C01_begin_after_predecessors_ended : forall P, wf_first_match P = true ->
   forall evs l1 l2 t, log tid (ptg_run P evs) = l2 ++ LBegin t :: l1 ->
   forall p, In p (preds P t) -> In (LEnd p) l1.
-Proof. exact ptg_begin_after_preds_ended. Qed.
+Proof. exact first_begin_after_preds_ended. Qed.
 Print Assumptions C01_begin_after_predecessors_ended.
 
 (* whenever startup is complete and nothing is ready or running, every instance is done:
    the runtime cannot stop early *)
-Theorem C01_quiescent_all_done : forall P, wf_program P = true ->
+Theorem C01_quiescent_all_done : forall P, wf_first_match P = true ->
   forall evs, ptg_quiescent P evs -> forall t, In t (instances P) -> st tid (ptg_run P evs) t = Done.
-Proof. exact ptg_quiescent_all_done. Qed.
+Proof. exact first_quiescent_all_done. Qed.
 Print Assumptions C01_quiescent_all_done.
 
 (* hence any complete run executes exactly the multiset `instances P`: each instance once, nothing else *)
-Theorem C01_complete_run_executes_each_instance_once : forall P, wf_program P = true ->
+Theorem C01_complete_run_executes_each_instance_once : forall P, wf_first_match P = true ->
   forall evs, ptg_quiescent P evs -> Permutation (executed P evs) (instances P).
-Proof. exact ptg_complete_run_once. Qed.
+Proof. exact first_complete_run_once. Qed.
 Print Assumptions C01_complete_run_executes_each_instance_once.
 
 (* and a run that is not complete can always continue (no deadlock of the dataflow) *)
-Theorem C01_progress : forall P, wf_program P = true ->
+Theorem C01_progress : forall P, wf_first_match P = true ->
   forall evs t, In t (instances P) -> st tid (ptg_run P evs) t <> Done ->
   exists u, In u (instances P) /\
     (st tid (ptg_run P evs) u = Ready \/ st tid (ptg_run P evs) u = Running \/ st tid (ptg_run P evs) u = Waiting 0).
-Proof. exact ptg_progress. Qed.
+Proof. exact first_progress. Qed.
 Print Assumptions C01_progress.
 
 (* the same for ANY finite DAG (the form C02/C16/C15 build on): succs is the converse of
@@ -120,3 +127,33 @@ Definition ex_cycle : program :=
             c_prio := None; c_count := false |} ] |}.
 Example C01_cycle_rejected : wf_program ex_cycle = false.
 Proof. vm_compute. reflexivity. Qed.
+
+(* ---- first match wins: overlapping guards.
+     PROD(k) k = 1..2     RW Y <- D(k) -> B CONS(k)      RW X <- D(k) -> A CONS(k)
+     CONS(k) k = 0..2     RW A <- (k > 0) ? X PROD(k)    <- D(k)          (both hold for k > 0: the first one is the input)
+                          READ B <- (k > 0) ? Y PROD(k) : D(k)
+   CONS(1) has the two predecessor edges from PROD(1) and nothing else; CONS(0) is a startup task. *)
+Definition kpos := Eb Ogt (El 0) (Ec 0).
+Definition ex_firstmatch : program :=
+  {| p_globals := [];
+     p_classes :=
+       [ {| c_locals := [Lrange (Ec 1) (Ec 2) (Ec 1)]; c_params := [0%nat]; c_place := [Ec 0];
+            c_flows := [ {| f_mode := MRW; f_deps := [dep_in (Tmem [El 0]); dep_out (Ttask 1 1 [Aexp (El 0)])] |};
+                         {| f_mode := MRW; f_deps := [dep_in (Tmem [El 0]); dep_out (Ttask 1 0 [Aexp (El 0)])] |} ];
+            c_prio := None; c_count := false |};
+         {| c_locals := [Lrange (Ec 0) (Ec 2) (Ec 1)]; c_params := [0%nat]; c_place := [Ec 0];
+            c_flows := [ {| f_mode := MRW;
+                            f_deps := [ {| d_in := true; d_guard := Some kpos; d_then := Ttask 0 1 [Aexp (El 0)]; d_else := None |};
+                                        dep_in (Tmem [El 0]) ] |};
+                         {| f_mode := MRead;
+                            f_deps := [ {| d_in := true; d_guard := Some kpos; d_then := Ttask 0 0 [Aexp (El 0)];
+                                           d_else := Some (Tmem [El 0]) |} ] |} ];
+            c_prio := None; c_count := false |} ] |}.
+Example C01_first_match_example :
+  wf_program ex_firstmatch = false /\ wf_first_match ex_firstmatch = true
+  /\ preds ex_firstmatch (1%nat, [1%Z]) = [(0%nat, [1%Z]); (0%nat, [1%Z])]
+  /\ preds ex_firstmatch (1%nat, [0%Z]) = []
+  /\ executed ex_firstmatch [Startup; Begin (1%nat, [0%Z]); Begin (0%nat, [2%Z]); Begin (1%nat, [2%Z]); End (0%nat, [2%Z]);
+                              Begin (1%nat, [2%Z]); Begin (1%nat, [2%Z])]
+     = [(1%nat, [2%Z]); (0%nat, [2%Z]); (1%nat, [0%Z])].
+Proof. vm_compute. repeat split. Qed.
